@@ -11,7 +11,7 @@ for N in $NAMES; do
   RES="{"
   for Q in $P $(cat seeded/$N/also.txt 2>/dev/null); do
     OUT=$(cd /tmp/verif${SCRATCH:-2} && VERIF_REPO=/tmp/repo${SCRATCH:-2} VERIF_DIR=/tmp/verif${SCRATCH:-2} bin/check $Q quick 2>&1); RC=$?
-    KEYS=$(echo "$OUT" | grep -E '^violation' | sed -E 's/.*key=([^ ]+) detail=.*/\1/' | sed 's#/tmp/repo${SCRATCH:-2}#/repo#g' | sort -u | head -6 | tr '\n' ' ')
+    KEYS=$(echo "$OUT" | grep -E '^violation' | sed -E 's/.*key=([^ ]+) detail=.*/\1/' | sed "s#/tmp/repo${SCRATCH:-2}#/repo#g" | sort -u | head -6 | tr '\n' ' ')
     WALL=$(echo "$OUT" | grep -oE 'wall=[0-9.]+s' | tail -1)
     RES="$RES\"$Q\": {\"exit\": $RC, \"$WALL\": true, \"violation_keys\": \"$KEYS\"}, "
     echo "$N :: $Q rc=$RC $WALL $KEYS"
